@@ -142,8 +142,9 @@ def model_checking(ctx, thorough):
     for blocking, mode in ((True, "blocking"), (False, "dropmode")):
         ctx.tlc("BSP", "MC_BSP", "MC_BSP.cfg", defines=bsp_defs(2, 1, 1, 1, blocking, 1, 1), name="bsp-nostuck-" + mode,
                 timeout=900)
-        ctx.tlc("BSP", "MC_BSP", "MC_BSP_live.cfg", defines=bsp_defs(2, 1, 1, 1, blocking, 1, 1), name="bsp-live-" + mode,
-                timeout=1800)
+        if blocking or thorough:  # quick: liveness for the blocking mode only (drop mode: `Stuck` above)
+            ctx.tlc("BSP", "MC_BSP", "MC_BSP_live.cfg", defines=bsp_defs(2, 1, 1, 1, blocking, 1, 1), name="bsp-live-" + mode,
+                    timeout=1800)
         name = "bsp-stuck-old-shape-%s-%s" % (mode, "D2" if blocking else "D3")
         r = ctx.tlc("BSP", "MC_BSP", "MC_BSP.cfg", defines=bsp_defs(2, 1, 1, 1, blocking, 1, 1, shape="pre-ada0bc0"),
                     name=name, must_pass=False, count=False, timeout=900)
